@@ -15,8 +15,12 @@ TRUSTED = [
     'translate/c12.py + translate/pyexpr.py: Python ast -> Gallina for the decision expressions of cap_distance, is_in_cap, '
     'angles_to_x, is_cap_used, is_in_polygon, is_in_window, set_use_caps and the balkans slices of window_read '
     '(Generated/Mangle.v, Generated/MangleR.v); C12/RBase.v gives np.degrees / np.radians / np.clip their real meaning',
-    'hand-written loop skeletons of C12/Model.v around the generated expressions -- tied to the code by exact '
-    'correspondence on every run',
+    'loop skeletons of C12/Model.v around the generated expressions: since round 5 the whole bodies of set_use_caps, '
+    'is_in_polygon (one point) and is_in_window (one point, fuelled while loop) are compiled statement by statement '
+    '(translate/c12.py class Body) and proved equal to the skeletons (C12/Loops.v: C12_set_use_caps_body_is_model, '
+    'C12_is_in_polygon_body_is_model, C12_is_in_window_body_is_model); the per-point reading of the vectorised '
+    'is_in_window body, array indexing (polygon.x[i, :], polygon.cm[i], p[x][icap, :]) and cap_distance as a black box '
+    'inside these bodies are tied by exact correspondence on every run',
     'C12/Arccos.v ties the code formula arccos(1-|cm|) - arccos(x.p) >= 0 to the algebraic test over Coq Reals '
     '(stdlib axioms: ClassicalDedekindReals.sig_forall_dec, sig_not_dec, functional_extensionality_dep, Classical_Prop.classic); '
     'numpy arccos/dot rounding is outside: generated points keep |1 - x.p - |cm|| > 1e-11',
@@ -31,8 +35,11 @@ ASSUMPTIONS = [
     'points keep 1e-11 from every boundary',
     '|cm| <= 2, unit-length x and p up to rounding; float32 cap tables, polygons with zero caps in .ply files and negative '
     'or >= 63 index-list entries are outside the generated inputs',
-    'set_use_caps: the tolerance tests are compared away from their thresholds (duplicates differ by 0 or by <= tol/100, '
-    'distinct caps by >= 1e-3)',
+    'set_use_caps: every tolerance comparison is driven over a ladder of absolute (tol * {0, 1e-3, 0.5, 0.999, 1.001, 2, '
+    '1e2, 1e4, 1e6}) and relative (1e-4 .. 1e-12) differences, axis and cm separately and jointly, both signs and '
+    'magnitudes 1e-6 .. 2 of cm, tol in {1e-10, 1e-7, 1e-5, 1e-12, 2^-20}; a rung is used only when each pairwise '
+    'comparison keeps a relative distance of 1e-9 from its threshold (float rounding is ~1e-16), except exact ties at '
+    'power-of-two tol with short dyadic values, where every float operation is checked to be exact; tol <= 0 is outside',
 ]
 
 HEADER = '''From Coq Require Import ZArith QArith List. Import ListNotations.
@@ -325,7 +332,8 @@ def gen_window_job(rng, allcaps, onecap, empty=False, nopoly=False):
     t = rng.random()
     job = {'f': 'window', 'polys': polys, 'pad': pad, 'ncaps': 0 if t < 0.6 else (-rng.randint(1, 3) if t < 0.65 else rng.randint(1, 7)),
            'pts': pts, 'radec': [radec_of(p) for p in pts], 'routes': routes, 'inpoly': True,
-           'kinds': kinds, 'allcaps': allcaps, 'onecap': onecap, 'ply_fmt': rng.choice(['repr', 'repr', 'e', 'g'])}
+           'kinds': kinds, 'allcaps': allcaps, 'onecap': onecap, 'ply_fmt': rng.choice(['repr', 'repr', 'e', 'g']),
+           'ply_layout': rng.choice(['std', 'minimal', 'spaced', 'header'])}
     if allcaps and not nopoly:
         # cap table with filler rows and the polygons' runs in shuffled order
         order = list(range(npoly))
@@ -445,7 +453,8 @@ def gen_exact_window_job(rng, allcaps):
     t = rng.random()
     job = {'f': 'window', 'polys': polys, 'pad': pad, 'ncaps': 0 if t < 0.7 else rng.randint(1, 4), 'pts': pts,
            'radec': [radec_of(unit(p)) for p in pts], 'routes': routes, 'inpoly': True, 'kinds': kinds, 'allcaps': allcaps,
-           'onecap': False, 'ply_fmt': rng.choice(['repr', 'e', 'g']), 'exact': True}
+           'onecap': False, 'ply_fmt': rng.choice(['repr', 'e', 'g']), 'exact': True,
+           'ply_layout': rng.choice(['std', 'minimal', 'spaced', 'header'])}
     if allcaps:
         bcaps, icap = [], []
         for p in polys:
@@ -674,6 +683,201 @@ def gen_setuse_job(rng):
     return job
 
 
+# ---- tolerance ladder (round 5): every tolerance comparison of set_use_caps -- |x_i - x_j|^2 < tol^2, |cm_i - cm_j| < tol,
+# |cm_i + cm_j| < tol -- is driven through differences on a logarithmic ladder around its threshold (absolute rungs =
+# multiples of tol, relative rungs = multiples of the value itself), for the axis and for cm separately and jointly, with
+# cm of both signs and |cm| from 1e-6 to 2, for several tol.  The specification decides by exact rational comparison on
+# the doubles; a rung is kept only if every pairwise comparison of the polygon is at least 1e-9 (relative) away from its
+# threshold, which is 10^6 times the rounding error of the implementation's float evaluation.
+LADDER_ABS = [0.0, 1e-3, 0.5, 0.999, 1.001, 2.0, 1e2, 1e4, 1e6]
+LADDER_REL = [1e-4, 1e-5, 1e-6, 1e-7, 1e-8, 1e-9, 1e-10, 1e-11, 1e-12]
+LADDER_CM = [1e-6, 1e-3, 0.03125, 0.5, 1.0, 1.5, 1.9990234375, 2.0]
+LADDER_TOL = [None, None, None, 1.0e-7, 1.0e-5, 1.0e-12, 2.0 ** -20]
+LADDER_MODES = ['axis', 'cm', 'joint', 'rel-axis', 'rel-cm', 'rel-joint', 'chain-axis', 'chain-cm', 'tie']
+
+
+def tol_exact_ok(xs, cms, tol):
+    """every pairwise tolerance comparison is evaluated WITHOUT rounding by the implementation's float arithmetic
+    (differences, squares, the running sum of np.sum over three terms, tol**2, cm_i -+ cm_j): then even an exact tie
+    (difference == tol) is decided by the code as by exact arithmetic."""
+    def same(fl, fr):
+        return Fr(fl) == fr
+    if not same(tol * tol, Fr(tol) ** 2):
+        return False
+    for i in range(len(cms)):
+        for j in range(i + 1, len(cms)):
+            acc_f, acc_q = 0.0, Fr(0)
+            for a, b in zip(xs[i], xs[j]):
+                d_f, d_q = a - b, Fr(a) - Fr(b)
+                if not same(d_f, d_q) or not same(d_f * d_f, d_q * d_q):
+                    return False
+                acc_f, acc_q = acc_f + d_f * d_f, acc_q + d_q * d_q
+                if not same(acc_f, acc_q):
+                    return False
+            if not same(cms[i] - cms[j], Fr(cms[i]) - Fr(cms[j])) or not same(cms[i] + cms[j], Fr(cms[i]) + Fr(cms[j])):
+                return False
+    return True
+
+
+def tol_margin_ok(xs, cms, tol, rel=Fr(1, 10 ** 9)):
+    """every pairwise tolerance comparison is decided by float arithmetic as by exact arithmetic"""
+    T = Fr(tol)
+    T2 = T * T
+    X = [[Fr(v) for v in x] for x in xs]
+    CM = [Fr(v) for v in cms]
+    for i in range(len(CM)):
+        for j in range(i + 1, len(CM)):
+            d2 = sum((a - b) ** 2 for a, b in zip(X[i], X[j]))
+            if abs(d2 - T2) <= T2 * rel:
+                return False
+            for v in (abs(CM[i] - CM[j]), abs(CM[i] + CM[j])):
+                if abs(v - T) <= T * rel:
+                    return False
+    return True
+
+
+def ladder_base_axis(rng):
+    t = rng.random()
+    if t < 0.25:
+        v = [0.0, 0.0, 0.0]
+        v[rng.randrange(3)] = rng.choice([1.0, -1.0])
+        return v
+    if t < 0.5:       # all components clearly non-zero
+        return unit([rng.choice([-1, 1]) * C.dyadic(rng, 0.25, 1, 8) for _ in range(3)])
+    if t < 0.6:
+        return axis_unit(rng)
+    return rand_unit(rng)
+
+
+def gen_tol_ladder_job(rng, k):
+    """One set_use_caps call whose duplicate decision sits on rung k of the ladder (k walks modes x rungs)."""
+    mode = LADDER_MODES[k % len(LADDER_MODES)]
+    for _attempt in range(50):
+        tolv = rng.choice(LADDER_TOL)
+        tol = 1.0e-10 if tolv is None else tolv
+        x0 = ladder_base_axis(rng)
+        cm0 = rng.choice(LADDER_CM) * rng.choice([1.0, -1.0])
+        if rng.random() < 0.3:
+            cm0 = float(rand_cm(rng))
+        s = rng.choice([1.0, 1.0, -1.0])                 # partner has the same / the opposite sign of cm
+        u = rng.choice([perp(rng, x0), list(x0), rand_unit(rng)])
+        rung_x = rung_c = None
+        caps = [(list(x0), cm0)]
+        if mode == 'tie':
+            # exact ties and near-ties at a power-of-two tolerance with short dyadic values: all float operations exact
+            tolv = tol = rng.choice([2.0 ** -20, 2.0 ** -10, 2.0 ** -30])
+            x0 = [C.dyadic(rng, -1, 1, 6) for _ in range(3)] if rng.random() < 0.6 else ladder_base_axis(rng)[:]
+            if rng.random() < 0.5:
+                x0 = [float(round(c * 64) / 64) for c in x0]
+            cm0 = C.dyadic(rng, 1 / 64, 1.5, 8) * rng.choice([1.0, -1.0])
+            if cm0 == 0:
+                cm0 = 0.5
+            f1 = rng.choice([1.0, 1.0, 1.0 - 2.0 ** -8, 1.0 + 2.0 ** -8, 0.5, 0.0])
+            f2 = rng.choice([1.0, 1.0, 1.0 - 2.0 ** -8, 1.0 + 2.0 ** -8, 0.5, 0.0])
+            which = rng.choice(['axis', 'cm', 'both'])
+            x1, cm1 = list(x0), s * cm0
+            if which in ('axis', 'both'):
+                m = rng.randrange(3)
+                x1[m] = x0[m] + rng.choice([1.0, -1.0]) * f1 * tol
+                rung_x = 'tie*%g' % f1
+            if which in ('cm', 'both'):
+                cm1 = s * cm0 + rng.choice([1.0, -1.0]) * f2 * tol
+                rung_c = 'tie*%g' % f2
+            caps = [(list(x0), cm0), (x1, cm1)]
+        elif mode.startswith('rel'):
+            r1, r2 = rng.choice(LADDER_REL), rng.choice(LADDER_REL)
+            sg1, sg2 = rng.choice([1.0, -1.0]), rng.choice([1.0, -1.0])
+            x1, cm1 = list(x0), s * cm0
+            if mode in ('rel-axis', 'rel-joint'):
+                x1 = [c * (1.0 + sg1 * r1) for c in x0]
+                rung_x = 'rel%g' % r1
+            if mode in ('rel-cm', 'rel-joint'):
+                cm1 = s * cm0 * (1.0 + sg2 * r2)
+                rung_c = 'rel%g' % r2
+            caps.append((x1, cm1))
+        elif mode.startswith('chain'):
+            # non-transitive doubles: cap1 = cap0 + d, cap2 = cap0 + 2 d with tol/2 < d < tol
+            f = rng.choice([0.6, 0.75, 0.999])
+            d = f * tol
+            for m in (1, 2):
+                if mode == 'chain-axis':
+                    caps.append(([x0[c] + m * d * u[c] for c in range(3)], s * cm0))
+                    rung_x = 'chain%g' % f
+                else:
+                    caps.append((list(x0), s * cm0 + m * d))
+                    rung_c = 'chain%g' % f
+        else:
+            f1, f2 = rng.choice(LADDER_ABS), rng.choice(LADDER_ABS)
+            x1, cm1 = list(x0), s * cm0
+            if mode in ('axis', 'joint'):
+                x1 = [x0[c] + f1 * tol * u[c] for c in range(3)]
+                rung_x = 'tol*%g' % f1
+            if mode in ('cm', 'joint'):
+                cm1 = s * cm0 + rng.choice([1.0, -1.0]) * f2 * tol
+                rung_c = 'tol*%g' % f2
+            caps.append((x1, cm1))
+        if any(abs(c) > 2.0 for _, c in caps):
+            continue
+        # unrelated caps around the ladder caps, random position of the pair
+        n_extra = rng.choice([0, 0, 1, 1, 2])
+        extra = [(rand_unit(rng), float(rand_cm(rng))) for _ in range(n_extra)]
+        if mode == 'tie':     # keep every pairwise operation exact: short dyadic extras
+            extra = [([C.dyadic(rng, -1, 1, 5) for _ in range(3)], float(C.dyadic(rng, 1 / 8, 1.5, 5) or 0.5) * rng.choice([1.0, -1.0]))
+                     for _ in range(n_extra)]
+        order = caps + extra
+        if rng.random() < 0.5:
+            # keep the relative order of the ladder caps (which one is "later" matters), shuffle the others in between
+            slots = sorted(rng.sample(range(len(order)), len(caps)))
+            merged, ci, ei = [], 0, 0
+            for pos in range(len(order)):
+                if pos in slots:
+                    merged.append(caps[ci])
+                    ci += 1
+                else:
+                    merged.append(extra[ei])
+                    ei += 1
+            order = merged
+        if rng.random() < 0.25:
+            order = order[::-1]        # the perturbed cap first, the base cap later
+        xs = [list(map(float, x)) for x, _ in order]
+        cms = [float(c) for _, c in order]
+        if tol_exact_ok(xs, cms, tol) if mode == 'tie' else tol_margin_ok(xs, cms, tol):
+            break
+    else:
+        raise RuntimeError('tolerance ladder: no admissible case in 50 attempts')
+    n = len(cms)
+    t = rng.random()
+    if t < 0.6:
+        il, ilk = list(range(n)), 'identity'
+    elif t < 0.8:
+        il, ilk = rng.sample(range(n), n), 'permutation'
+    else:
+        il, ilk = rng.sample(range(n), rng.randint(1, n)), 'subset'
+    if il == list(range(len(il))):
+        ilk = 'identity-prefix'
+    opts = {}
+    if tolv is not None:
+        opts['tol'] = tolv
+    if rng.random() < 0.3:
+        opts['allow_neg_doubles'] = True
+    if rng.random() < 0.1:
+        opts['add'] = True
+    if rng.random() < 0.04:
+        opts['allow_doubles'] = True
+    use0 = rng.getrandbits(n + 1) if rng.random() < 0.5 else (1 << n) - 1
+    job = {'f': 'setuse', 'poly': {'x': xs, 'cm': cms, 'use_caps': use0}, 'index_list': il, 'opts': opts,
+           'ilk': ilk, 'dupkinds': ['ladder:' + mode],
+           'ladder': {'mode': mode, 'axis': rung_x, 'cm': rung_c, 'cm_sign': 'same' if s > 0 else 'opposite',
+                      'cm0': ('<0' if cm0 < 0 else '>=0') + (':small' if abs(cm0) < 0.01 else ':large'),
+                      'tol': tol}}
+    form = rng.choice(['list', 'list', 'tuple', 'array'])
+    if form == 'tuple':
+        job['as_tuple'] = True
+    elif form == 'array' and il:
+        job['as_array'] = True
+    return job
+
+
 def py_set_use_caps(job, index_bug=False, no_abs=False):
     """Reference transliteration used ONLY to label a failure with its cause (never to decide one)."""
     p, il, o = job['poly'], job['index_list'], job.get('opts', {})
@@ -742,6 +946,8 @@ def correspond(ctx, proof_ok=True):
         jobs.append(gen_cap_job(rng))
     for _ in range(ctx.n(200, 3000)):
         jobs.append(gen_setuse_job(rng))
+    for k in range(ctx.n(405, 4500)):
+        jobs.append(gen_tol_ladder_job(rng, k))
     for k in range(ctx.n(12, 120)):
         jobs.append(gen_types_job(rng, k))
     for k in range(ctx.n(8, 100)):
@@ -752,7 +958,7 @@ def correspond(ctx, proof_ok=True):
         jobs.append(gen_history_job(rng))
     nb = C.NPROC
     batches = [jobs[i::nb] for i in range(nb)]
-    strip = ('kinds', 'allcaps', 'onecap', 'ilk', 'dupkinds', 'exact')
+    strip = ('kinds', 'allcaps', 'onecap', 'ilk', 'dupkinds', 'exact', 'ladder')
     outs = C.run_impl_parallel('c12_impl.py', [[{k: v for k, v in j.items() if k not in strip} for j in b] for b in batches])
     results = [None] * len(jobs)
     for bi, o in enumerate(outs):
@@ -903,6 +1109,19 @@ def correspond(ctx, proof_ok=True):
                 count('set_use_caps:doubles=%s' % dk)
             for ok_ in sorted(j['opts']):
                 count('set_use_caps:option=%s' % ok_)
+            if 'ladder' in j:
+                L = j['ladder']
+                for part in ('axis', 'cm'):
+                    if L[part] is not None:
+                        count('set_use_caps:tolerance-ladder:%s:%s' % (part, L[part]))
+                count('set_use_caps:tolerance-ladder:mode=%s' % L['mode'])
+                count('set_use_caps:tolerance-ladder:cm0%s:partner-sign-%s' % (L['cm0'], L['cm_sign']))
+                count('set_use_caps:tolerance-ladder:tol=%g' % L['tol'])
+                if 'ok' in r:
+                    sel = (p['use_caps'] if j['opts'].get('add') else 0)
+                    for i_ in j['index_list']:
+                        sel |= 1 << i_
+                    count('set_use_caps:tolerance-ladder:%s' % ('a-selected-cap-dropped' if r['ok'] != sel else 'all-selected-kept'))
         elif j['f'] == 'window':
             routes = j['routes']
             intended = j['polys']
@@ -927,6 +1146,8 @@ def correspond(ctx, proof_ok=True):
                               '(CWindow %s %s %s %s)' % (C.coq_list([poly_t(p) for p in intended]), C.zlit(j['ncaps']),
                                                          C.coq_list([vec_t(pts[i]) for i in keep]), C.coq_list(expects))))
                 count('is_in_window:%s:ncaps%s%s' % (mode, '<=0' if j['ncaps'] <= 0 else '>0', (':with-whole-sky-polygon' if any(len(p['cm']) == 0 for p in intended) else '') + (':boundary-values' if j.get('exact') else '')), len(keep) * len(routes))
+            if 'ply' in routes or 'ply_assign' in routes:
+                count('route=ply:layout=%s:numbers=%s' % (j.get('ply_layout', 'std'), j.get('ply_fmt', 'repr')))
             # is_in_polygon, polygon by polygon, on two routes (ManglePolygon objects and raw FITS rows)
             pts = j['pts']
             prts = [rt for rt in ('kwargs', 'fits_raw') if rt in routes and 'err' not in r['routes'][rt]]
@@ -1197,7 +1418,7 @@ def replay(ctx, rep):
     if not j or 'f' not in j:
         print('replay file has no runnable job (kind=%s, item=%s)' % (rep.get('kind'), rep.get('item')))
         return 2
-    strip = ('kinds', 'allcaps', 'onecap', 'ilk', 'dupkinds', 'exact')
+    strip = ('kinds', 'allcaps', 'onecap', 'ilk', 'dupkinds', 'exact', 'ladder')
     out = C.run_impl('c12_impl.py', [{k: v for k, v in j.items() if k not in strip}])
     r = out['results'][0]
     print('signature:', rep.get('signature'))
